@@ -47,6 +47,44 @@ def pool(seed, tier):
     return progs + extra
 
 
+def redef_histories():
+    """histories in which a later program re-uses the NAMES of an earlier one with different definitions: type names
+    (compared with a structure, with another name, recursively, under modes), function names (other signature / other
+    body), labels, process names.  `good` is accepted and prints; `bad` differs from it in ONE definition and is rejected
+    (or prints something else).  Anything remembered per name across programs - an equality once proved or refuted, a
+    signature, a mode, a polarity - shows as a verdict or output that differs from the program run alone."""
+    fams = []
+    main = "prc[m] : 1 = print ok; close self\n"
+    tys = [("+{done : 1}", "+{other : 1}"), ("1 * 1", "1"), ("&{go : 1}", "&{go : 1, stop : 1}"), ("1 -* 1", "1 * 1"),
+           ("+{l : 1, r : 1}", "+{l : 1}"), ("lin /\\ lin 1", "lin 1")]
+    for k, (s1, s2) in enumerate(tys):
+        mk = lambda d: "type B = %s\nlet f(a : %s) : B = fwd self a\n" % (d, s1) + main
+        fams.append(("name-struct%d" % k, mk(s1), mk(s2)))
+        mk2 = lambda d: "type A = %s\ntype B = %s\nlet f(a : A) : B = fwd self a\n" % (s1, d) + main
+        fams.append(("name-name%d" % k, mk2(s1), mk2(s2)))
+    fams.append(("rec", "type A = +{l : A, e : 1}\ntype B = +{l : B, e : 1}\nlet f(a : A) : B = fwd self a\n" + main,
+                 "type A = +{l : A, e : 1}\ntype B = +{l : B, e : 1 * 1}\nlet f(a : A) : B = fwd self a\n" + main))
+    fams.append(("rec-phase", "type A = +{l : +{l : A}}\ntype B = +{l : B}\nlet f(a : A) : B = fwd self a\n" + main,
+                 "type A = +{l : +{k : A}}\ntype B = +{l : B}\nlet f(a : A) : B = fwd self a\n" + main))
+    fams.append(("mode", "type B = lin 1\nlet f(a : lin 1) : B = fwd self a\n" + main, "type B = aff 1\nlet f(a : lin 1) : B = fwd self a\n" + main))
+    fams.append(("sig", "let g() : 1 = close self\nprc[m] : 1 = x <- new g(); wait x; print ok; close self\n",
+                 "let g() : 1 * 1 = a : 1 <- new close self; b : 1 <- new close self; send self<a, b>\nprc[m] : 1 = x <- new g(); wait x; print ok; close self\n"))
+    fams.append(("sig-arity", "let g(a : 1) : 1 = wait a; close self\nprc[m] : 1 = y : 1 <- new close self; x <- new g(y); wait x; print ok; close self\n",
+                 "let g() : 1 = close self\nprc[m] : 1 = y : 1 <- new close self; x <- new g(y); wait x; print ok; close self\n"))
+    fams.append(("body", "let g() : 1 = print one; close self\nprc[m] : 1 = x <- new g(); wait x; print ok; close self\n",
+                 "let g() : 1 = print two; close self\nprc[m] : 1 = x <- new g(); wait x; print ok; close self\n"))
+    fams.append(("label", "type C = +{a : 1, b : 1}\nlet g() : C = u : 1 <- new close self; self.a<u>\nprc[m] : 1 = x <- new g(); case x (a<u> => wait u; print isa; close self | b<u> => wait u; print isb; close self)\n",
+                 "type C = +{a : 1, b : 1}\nlet g() : C = u : 1 <- new close self; self.b<u>\nprc[m] : 1 = x <- new g(); case x (a<u> => wait u; print isa; close self | b<u> => wait u; print isb; close self)\n"))
+    fams.append(("polarity", "type P = 1 * 1\nlet g() : P = a : 1 <- new close self; b : 1 <- new close self; send self<a, b>\nprc[m] : 1 = x <- new g(); <u, w> <- recv x; wait u; wait w; print ok; close self\n",
+                 "type P = 1 -* 1\nlet g() : P = <a, w> <- recv self; wait a; close w\nprc[m] : 1 = x <- new g(); u : 1 <- new close self; r : 1 <- new send x<u, self>; wait r; print ok; close self\n"))
+    out = []
+    for name, good, bad in fams:
+        g, bd = ("redef:%s:good" % name, good), ("redef:%s:bad" % name, bad)
+        out.append([bd, g, bd, g, bd])
+        out.append([g, bd, g])
+    return out
+
+
 def _related_groups():
     return getattr(pool, "related", [])
 
@@ -81,6 +119,7 @@ def run(b, ps, tier, seed):
             pos = rng.randrange(len(h) + 1)
             h = h[:pos] + seq + h[pos:]
         hists.append(h)
+    hists.extend(redef_histories())
     tmo = 250 if tier == "quick" else 350
     # alone: every distinct program in its own fresh process (a history of length one)
     distinct = {}
